@@ -7,6 +7,7 @@ import (
 
 	"github.com/ethereum/go-ethereum/consensus/misc"
 	ethtypes "github.com/ethereum/go-ethereum/core/types"
+	ethparams "github.com/ethereum/go-ethereum/params"
 
 	sdk "github.com/cosmos/cosmos-sdk/types"
 
@@ -26,6 +27,12 @@ func (k Keeper) CalculateBaseFee(ctx sdk.Context) sdkmath.Int {
 		gasLimit = big.NewInt(consParams.Block.MaxGas)
 	} else {
 		gasLimit = new(big.Int).SetUint64(math.MaxUint64)
+	}
+
+	if gasLimit.Uint64()/ethparams.ElasticityMultiplier == 0 {
+		// gas target is zero (block max gas of 0 or 1), the EIP-1559 formula is undefined, keep the base fee
+		minGasPrice := params.MinGasPrice.TruncateInt().BigInt()
+		return sdkmath.NewIntFromBigInt(math.BigMax(params.BaseFee.BigInt(), minGasPrice))
 	}
 
 	nextBaseFee := misc.CalcBaseFee(k.evmKeeper.GetChainConfig(ctx), &ethtypes.Header{
